@@ -1911,22 +1911,24 @@ impl StorageEngine {
                 Value::String(bytes) => {
                     let len = bytes.len() as isize;
                     
+                    // Normalise in signed arithmetic: an end before the first byte
+                    // stays negative and selects nothing
                     let start = if start < 0 {
-                        std::cmp::max(0, len + start) as usize
+                        std::cmp::max(0, len + start)
                     } else {
-                        start as usize
+                        start
                     };
                     
                     let end = if end < 0 {
-                        std::cmp::max(-1, len + end) as usize
+                        len + end
                     } else {
-                        std::cmp::min(end as usize, len as usize - 1)
+                        std::cmp::min(end, len - 1)
                     };
                     
-                    if start > end || start >= bytes.len() {
+                    if start > end || start >= len {
                         Vec::new()
                     } else {
-                        bytes[start..=end].to_vec()
+                        bytes[start as usize..=end as usize].to_vec()
                     }
                 }
                 _ => return Err(StorageError::WrongType.into()),
